@@ -150,6 +150,41 @@ def build(text):
         return type(e).__name__, None, str(e)
 
 
+_prev_text = [None]
+
+
+def build2(text):
+    """The schema as an application may meet it: compile_lvs(text) is called, then another schema is compiled
+    (the previous one of this run), then compile_lvs(text) again, and the Checker whose answers are recorded
+    is built from the SECOND model.  A compilation must not depend on earlier compilations in the process.
+    Returns (outcome, checker|None, message, note); note is None, 'model-differs' (the two models encode
+    differently) or 'second-compile-<outcome>' (the first attempt was accepted, the second not)."""
+    L = lvs()
+    oc, ck, msg = build(text)
+    prev, _prev_text[0] = _prev_text[0], text
+    if ck is None:
+        return oc, ck, msg, None
+    first = bytes(ck.model.encode())
+    if prev is not None and prev != text:
+        try:
+            L.compile_lvs(prev)
+        except Exception:  # noqa - outcome of the other schema is judged where it is generated
+            pass
+    oc2, ck2, msg2 = build(text)
+    if ck2 is None:
+        return oc, ck, msg, 'second-compile-%s' % oc2
+    note = None if bytes(ck2.model.encode()) == first else 'model-differs'
+    return 'ok', ck2, '', note
+
+
+def recompile_violation(ctx, prop, note, text):
+    if note:
+        ctx.violation('%s/compile_lvs/recompile/%s' % (prop, note),
+                      'compiling the same schema text twice in one process (another schema compiled in between) gives '
+                      '%s for\n%s' % ('two different models' if note == 'model-differs' else note, text),
+                      {'kind': 'recompile', 'text': text})
+
+
 def _build_job(text):
     oc, ck, msg = build(text)
     if ck is None:
